@@ -91,6 +91,15 @@ Theorem c05_addr_handed_once : forall evs, wf_run init_w evs ->
 Proof. exact addr_handed_once_l. Qed.
 Print Assumptions c05_addr_handed_once.
 
+(* every address that entered the worker for some request (w_asked: put into
+   trackedDials) has been handed to a transport or refused by back-off once nothing
+   is scheduled any more; while the queue is non-empty it is still scheduled *)
+Theorem c05_all_eligible_attempted : forall evs, wf_run init_w evs ->
+  let s := wrun init_w evs in
+  w_dq s = [] -> forall a, In a (w_asked s) -> In a (w_dials s) \/ In a (w_refused s).
+Proof. exact all_eligible_attempted_l. Qed.
+Print Assumptions c05_all_eligible_attempted.
+
 (* ---- DefaultDialRanker ---------------------------------------------------------------
    for every sort.Slice that permutes its input, every address list and every
    assignment of the predicates: each input address is returned exactly once, and no
